@@ -331,14 +331,18 @@ pub fn scenario(family: &str, seed: u64) -> Scenario {
             for sp in &mut sc.streams { sp.start_us = 0; sp.read_delay_us = sp.read_delay_us.max(500); }
             let victim = pick(rng, &["c", "s"]);
             let kinds = ["stream_beyond_sd", "stream_beyond_max_streams", "reset_final_shrink", "data_after_fin", "local_unopened", "send_only_stream",
-                         "max_stream_data_recv_only", "stop_sending_recv_only", "max_streams_huge", "new_cid_bad_rpt", "handshake_done", "conn_data_beyond", "stream_in_handshake",
+                         "max_stream_data_recv_only", "stop_sending_recv_only", "max_streams_huge", "new_cid_bad_rpt", "handshake_done", "conn_data_beyond", "stream_in_handshake", "app_close_in_handshake",
                          "reset_beyond_sd", "fin_below_received"];
             let kind = kinds[(seed % kinds.len() as u64) as usize];
             if kind == "conn_data_beyond" {
                 let l = if victim == "c" { &mut sc.c } else { &mut sc.s };
                 l.data_window = 4000;
             }
-            sc.violation = Some(Violation { victim: victim.into(), kind: kind.into(), nth: rng.random_range(1..12), after_us: pick(rng, &[0u64, 100_000, 250_000]) });
+            let in_handshake = kind.ends_with("_in_handshake");
+            sc.violation = Some(Violation { victim: victim.into(), kind: kind.into(),
+                                            // there are only a few Handshake packets per connection
+                                            nth: if in_handshake { rng.random_range(1..3) } else { rng.random_range(1..12) },
+                                            after_us: if in_handshake { 0 } else { pick(rng, &[0u64, 100_000, 250_000]) } });
             net.delay_us = 20_000;
             sc.deadline_us = 30_000_000;
         }
